@@ -167,6 +167,8 @@ def correspond(ctx, scale):
                     # residual becomes exactly zero and "nothing is left to quantize" - give the same output / index / loss shapes as a generic input
                     if not rg and out is not None:
                         specials = [('fed-back', out.detach().clone()), ('zeros', torch.zeros(*shp))]
+                        xd_ = x.detach()
+                        specials.append(('permuted-view', xd_.transpose(0, -1).contiguous().transpose(0, -1) if xd_.ndim >= 2 else xd_))
                         if hasattr(mod, 'get_output_from_indices') and not isinstance(ret[1], (tuple, list)) and not sp.get('layers_axis_second'):
                             try:
                                 with torch.no_grad():
@@ -200,6 +202,39 @@ def correspond(ctx, scale):
                                                  'case': dict(kw=sp['kw'], shape=shp, train=train, special=sname)})
         if len(samples) < 5 and sp['name'] != 'vq':
             samples.append(dict(cls=sp['name'], kw={k: (v if not callable(v) else str(v)) for k, v in sp['kw'].items()}, layout=sp['layout']))
+    # index RANGE at the edges of the arithmetic: level counts in the hundreds (the flat index passes what bfloat16 / float16 can count exactly) x every
+    # input precision and module cast x saturated tokens (the outermost level of every dimension)
+    from vector_quantize_pytorch import FSQ as _FSQ, LFQ as _LFQ
+    for lv in ([512], [300, 3], [640, 2, 5], [1000], [257, 2], [33, 31]):
+        for dt in (torch.float32, torch.bfloat16, torch.float16, torch.float64):
+            for how in ('input', 'module-cast', 'autocast'):
+                if how == 'autocast' and dt != torch.bfloat16:
+                    continue
+                try:
+                    q_ = _FSQ(lv, dim=(len(lv) + 1 if how == 'autocast' else None))
+                    q_.eval()
+                    dd = len(lv) + 1 if how == 'autocast' else len(lv)
+                    x_ = torch.randn(2, 6, dd) * 3.0
+                    x_[0, 0], x_[0, 1] = 60.0, -60.0                  # saturated: the extreme level of every dimension
+                    x_[1, 0, 0] = 60.0
+                    with torch.no_grad():
+                        if how == 'input':
+                            o_, i_ = q_(x_.to(dt))
+                        elif how == 'module-cast':
+                            o_, i_ = q_.to(dt)(x_.to(dt))
+                        else:
+                            with torch.autocast('cpu', dtype=torch.bfloat16):
+                                o_, i_ = q_(x_)
+                except (RuntimeError, TypeError, AssertionError):
+                    continue              # a precision the class rejects is not this property's subject
+                ev += 1
+                dist['large_levels_low_precision'] = dist.get('large_levels_low_precision', 0) + 1
+                K_ = 1
+                for l_ in lv:
+                    K_ *= l_
+                if i_.dtype not in (torch.int32, torch.int64) or int(i_.min()) < 0 or int(i_.max()) >= K_ or tuple(i_.shape) != (2, 6) or tuple(o_.shape) != (2, 6, dd):
+                    failures.append({'key': f'fsq:large-levels:{str(dt).split(".")[-1]}:{how}:index-range', 'what': f'FSQ({lv}) with {dt} via {how}: indices {i_.dtype} span [{int(i_.min())}, {int(i_.max())}] '
+                                     f'(codebook size {K_}), shapes {tuple(o_.shape)} / {tuple(i_.shape)}', 'case': dict(levels=lv, dtype=str(dt), how=how)})
     # quantize-dropout in training: dropped layers report -1 but indices stay integer-typed and keep the documented shape
     from vector_quantize_pytorch import ResidualVQ, GroupedResidualVQ, ResidualFSQ, ResidualLFQ, ResidualSimVQ
     import random as _r
